@@ -14,6 +14,12 @@ package sender
 //@ requires w != nil && w.aio != nil && w.metrics != nil && w.metrics.AioInFlight != nil && w.metrics.AioTotal != nil && w.plugins != nil && w.targets != nil
 //@ requires sqe != nil && sqe.Submission != nil && sqe.Submission.Sender != nil && sqe.Submission.Sender.Task != nil && sqe.Submission.Sender.Task.Mesg != nil
 //@ requires sqe.Submission.Sender.Task.Mesg.Type == message.Notify ==> sqe.Submission.Sender.Promise != nil
+// dispatch (C19): the message goes to the transport named by the resolved receiver, carries that receiver's
+// data and the task's message type; a logical name resolves through the configured targets first
+//@ site call Enqueue assert recv != nil && arg0 != nil && arg0.Type == sqe.Submission.Sender.Task.Mesg.Type && arg0.Data == recv.Data && arg0.Done != nil
+//@ site call Enqueue assert has_key(w.plugins, recv.Type) && self == w.plugins[recv.Type]
+//@ site call Enqueue assert logicalRecv != nil && has_key(w.targets, *logicalRecv) && w.targets[*logicalRecv] != nil ==> recv == w.targets[*logicalRecv]
+//@ site call Enqueue assert logicalRecv == nil ==> recv == physicalRecv
 //@ ensures [C12 C19] calls("enqueue_cqe") + calls("plugin_enqueue") >= 1 && calls("enqueue_cqe") <= 1 && calls("plugin_enqueue") <= 1
 //@ ensures [C12 C19] calls("plugin_enqueue") == 1 && callres("plugin_enqueue", 0, 0) ==> calls("enqueue_cqe") == 0
 //@ ensures [C12 C19] calls("plugin_enqueue") == 1 && !callres("plugin_enqueue", 0, 0) ==> calls("enqueue_cqe") == 1
